@@ -349,18 +349,20 @@ func freshError(w *World, v ssa.Value) string {
 	if constructor == "" {
 		return ""
 	}
-	// wrapping an error produced by a computation is fine
-	for n, calls := range sl.Calls {
-		if n == constructor {
-			continue
-		}
-		for _, cv := range calls {
-			call := cv.(*ssa.Call)
-			res := call.Call.Signature().Results()
-			for i := 0; i < res.Len(); i++ {
-				if isErrorType(res.At(i).Type()) {
-					return ""
-				}
+	// wrapping an error produced by a computation is fine: an error *value* from a call
+	// (not just data from a call that also returns an error) flows into the result
+	for val := range sl.Values {
+		switch x := val.(type) {
+		case *ssa.Extract:
+			if isErrorType(x.Type()) {
+				return ""
+			}
+		case *ssa.Call:
+			if calleeName(x) == constructor {
+				continue
+			}
+			if res := x.Call.Signature().Results(); res.Len() == 1 && isErrorType(res.At(0).Type()) {
+				return ""
 			}
 		}
 	}
